@@ -45,6 +45,21 @@ def check(run):
                  "staggered arrivals: an /io shell is attached, a second request arrives and waits, the first hangs up and returns, one half of the "
                  "second is admitted, only then a third request arrives and goes for the free side - in all 8 combinations of which halves and which "
                  "side of the first shell ends first")
+    # a wedged peer: the old shell's writer is stuck inside Write when its output half ends; time passes; a new /io request arrives; the operator types
+    def wedged(pause, second):
+        io = lambda si: {"op": "ioreq", "si": si, "so": si + 1, "wk": "both", "wfail": -1, "ffail": -1}
+        ops = [io(1), {"op": "go", "s": 1}, {"op": "go", "s": 2}, {"op": "armw", "s": 1}, {"op": "line", "l": B.K(b"BUSY")},
+               {"op": "data", "s": 2, "d": "", "err": "eof"}, {"op": "release", "s": 2}, {"op": "sleep", "ms": pause},
+               {"op": "release", "s": 1}]      # (lets the old input half go IF it has already left its proxy: it must not have)
+        ops += ([io(3), {"op": "go", "s": 3}, {"op": "go", "s": 4}] if second == "io" else
+                [{"op": "admit", "s": 3, "d": "in", "key": B.K(b"n"), "wk": "both", "wfail": -1, "ffail": -1}, {"op": "admit", "s": 4, "d": "out", "key": B.K(b"n")}])
+        ops += [{"op": "line", "l": B.K(b"probe-1")}, {"op": "line", "l": B.K(b"probe-2")}, {"op": "data", "s": 4, "d": B.K(b"out4"), "err": ""},
+                {"op": "relw", "s": 1}, {"op": "release", "s": 1}, {"op": "line", "l": B.K(b"probe-3")}]
+        return {"ops": ops, "nocorr": True}
+    B.run_stream(run, binp, "wedged", 6, [wedged(p, sec) for p in (0, 499, 501, 5000, 60000) for sec in ("io", "uni")], CLAUSES,
+                 "a wedged peer: the attached /io shell's writer is stuck inside Write when its output half ends; 0 ms ... 60 s pass; a new /io request (or a "
+                 "unidirectional pair) arrives and the operator types: as long as the old input half has not returned nothing else may be attached, and no "
+                 "line may reach a stream of another request than the attached output's (monitor only)")
     n = 300 if run.tier == "quick" else 5000
     hs2 = [B.gen_history(run.rng, run.rng.choice([10, 20, 40]), "mixed") for _ in range(n)]
     B.run_stream(run, binp, "histories", 6, hs2, CLAUSES, "random mixed /i /o /io histories (see C01)")
@@ -63,9 +78,15 @@ def check(run):
         H = lambda x: x.encode().hex()
         guesses = ["io%2F1", "io%2F2", "io1", "io-1", "1", "io%2F", "bidir1"]
         gacts = []
+        # ... and /io requests which themselves carry something that looks like an ID (path suffix, query): they are still requests of their own
+        iopaths = {"io/kittens:i": ("GET /i/kittens", "/io/kittens"), "io/kittens:o": ("POST /o/kittens", "/io/kittens"), "io/kittens/": ("GET /i/kittens", "/io/kittens/"),
+                   "io?id": ("POST /o/kittens", "/io?id=kittens"), "io/%6Bittens": ("GET /i/kittens", "/io/%6Bittens")}
+        guesses += list(iopaths)
         for g in guesses:
-            gacts += [{"a": "open", "id": "u", "req": H("POST /o/%s HTTP/1.1\r\nHost: h\r\nTransfer-Encoding: chunked\r\n\r\n" % g), "quiet_ms": 100},
-                      {"a": "open", "id": "b", "req": H("POST /io HTTP/1.1\r\nHost: h\r\nTransfer-Encoding: chunked\r\n\r\n"), "quiet_ms": 150},
+            first = "POST /o/%s" % g if g not in iopaths else iopaths[g][0]
+            first += " HTTP/1.1\r\nHost: h\r\n" + ("Transfer-Encoding: chunked\r\n" if first.startswith("POST") else "") + "\r\n"
+            gacts += [{"a": "open", "id": "u", "req": H(first), "quiet_ms": 100},
+                      {"a": "open", "id": "b", "req": H("POST %s HTTP/1.1\r\nHost: h\r\nTransfer-Encoding: chunked\r\n\r\n" % (iopaths[g][1] if g in iopaths else "/io")), "quiet_ms": 150},
                       {"a": "line", "l": H("PROBE"), "quiet_ms": 80}, {"a": "peek", "id": "b", "quiet_ms": 10},
                       {"a": "close", "id": "b", "quiet_ms": 100}, {"a": "close", "id": "u", "quiet_ms": 250}]
         gres, gerr = vlib.run_overlay_test(hbin, "TestVerifHsrv", [{"i": 0, "cfg": {}, "acts": gacts}], run.rundir, tag="c06guess",
@@ -79,7 +100,7 @@ def check(run):
                 got_ready = any(ready in bytes.fromhex(l["line"]).decode(errors="replace") for a in A[:3] for l in a.get("och") or [])
                 got_line = b"PROBE" in bytes.fromhex((A[3] if len(A) > 3 else {}).get("got", "") or "")
                 if got_ready or got_line:
-                    forged.append({"unidirectional_request": "POST /o/" + g, "then": "POST /io", "ready_notice": got_ready, "operator_line_reached_the_io_request": got_line})
+                    forged.append({"unidirectional_request": ("POST /o/" + g) if g not in iopaths else iopaths[g][0], "then": "POST " + (iopaths[g][1] if g in iopaths else "/io"), "ready_notice": got_ready, "operator_line_reached_the_io_request": got_line})
         for b in forged[:1]:
             run.violation("http-io-forged-key", "a unidirectional /o/{id} client and a later /io request were combined into one shell: the /io request's key can be "
                           "named by a client", {"stream": "http-io", "input": b, "detail": forged})
